@@ -1,20 +1,288 @@
 package main
 
 import (
+	"fmt"
 	"math/rand"
+	"strconv"
+	"strings"
+
+	"verifharness/c20lib"
 )
 
-func gen(r *rand.Rand, tier string) []string {
-	return []string{
-		"mode=table",
-		"mode=json n=1 sc=0 tmo=0 e=t1|target.TargetService.Hello|k:v,auth:Bearer~x|name:s.bob",
-		"mode=json n=1 sc=0 tmo=40 e=t1|target.TargetService.Hello||name:n.5;t2|target.TargetService.Hello||nme:s.x;t3|target.TargetService.Nope||;t4|Hello||;t5|target.TargetService.Hello||name:z;t6|target.TargetService.Hello||name:b.true;t7|target.TargetService.Hello||name:o;t8|target.TargetService.Hello||name:l",
-		"mode=json n=2 sc=2 tmo=90 e=a|target.TargetService.Auth||login:s.1,pass:s.1;b|target.TargetService.Auth||login:s.1,pass:s.2;c|target.TargetService.Auth||login:n.1;d|target.TargetService.List||user_id:n.5,token:s.x;e|target.TargetService.List||userId:s.5;f|target.TargetService.List||user_id:f.1.5;g|target.TargetService.List||user_id:f.1.0;h|target.TargetService.List||user_id:s.abc;i|target.TargetService.List||user_id:z;j|target.TargetService.List||user_id:b.true;k|target.TargetService.List||user_id:n.5,userId:n.6;l|target.TargetService.Stats||;m|target.TargetService.Stats||x:n.1;n|target.TargetService.Order||item_id:n.-3,itemId:n.4;o|target.TargetService.List||user_id:f.1e2;p|target.TargetService.List||user_id:n.99999999999999999999;q|target.TargetService.List||user_id:s.~5;r|target.TargetService.List||user_id:s.",
-		"mode=json n=1 sc=0 tmo=0 e=t1|target.TargetService.Hello|K:v,UP:Val,x-y_z.w:a~b~c|name:s.",
-		"mode=scen run=sched n=2 tmo=0 users=1,2,3 g=gg calls=h|target.TargetService.Hello|x-user:u-{U},x-c:c-{G}|name:s.{U}|u scns=s1:1:h sched=0101",
-		"mode=scen run=sched n=1 tmo=0 users=1,2,3 g=gg calls=h|target.TargetService.Hello|x-user:u-{U}|name:s.{U}|u scns=s1:1:h;s2:1:h sched=0000",
-		"mode=scen run=sched n=2 tmo=0 users=1,2,3 g=gg calls=auth|target.TargetService.Auth||login:s.{U},pass:s.{U}|u;list|target.TargetService.List|authorization:Bearer~{A}|user_id:n.{I},token:s.{A}|- scns=s1:1:auth+list*2 sched=0011",
-		"mode=scen run=sched n=1 tmo=0 users=1,2,3 g=gg calls=h|target.TargetService.Hello|x-user:u-{U}|name:s.{U}|u;bad|target.TargetService.Nope|a:b|name:s.x|-;ill|target.TargetService.Hello|a:b|name:n.5|- scns=s1:1:h+bad+h;s2:1:ill+h;s3:1:h sched=000000",
-		"mode=scen run=engine n=4 tmo=0 users=1,2,3 g=gg calls=h|target.TargetService.Hello|x-user:u-{U}|name:s.{U}|u scns=s1:1:h shots=40",
+const svc = "target.TargetService."
+
+type fieldT struct {
+	name, json string
+	isInt      bool
+}
+
+var methods = map[string][]fieldT{
+	"Hello": {{"name", "name", false}},
+	"Auth":  {{"login", "login", false}, {"pass", "pass", false}},
+	"List":  {{"token", "token", false}, {"user_id", "userId", true}},
+	"Order": {{"token", "token", false}, {"user_id", "userId", true}, {"item_id", "itemId", true}},
+	"Stats": {},
+	"Reset": {},
+}
+var methodNames = []string{"Hello", "Auth", "List", "Order", "Stats", "Reset"}
+
+var unknownCalls = []string{"target.TargetService.Nope", "Hello", "target.TargetService.hello", "", "target.Other.Hello",
+	"/target.TargetService/Hello", "target.TargetService.Hello.", "TargetService.Hello"}
+
+const textAlphabet = "abcdefghijklmnopqrstuvwxyzABCDEFGHIJKLMNOPQRSTUVWXYZ0123456789     -_.=/:,;+!?'\"\\<>&#@()[]*%$^|`"
+
+func pick[T any](r *rand.Rand, xs []T) T { return xs[r.Intn(len(xs))] }
+
+func randText(r *rand.Rand, maxLen int, alphabet string) string {
+	n := 1 + r.Intn(maxLen)
+	b := make([]byte, n)
+	for i := range b {
+		b[i] = alphabet[r.Intn(len(alphabet))]
 	}
+	s := string(b)
+	if strings.HasPrefix(s, "TOK") {
+		s = "x" + s
+	}
+	return s
+}
+
+func randInt(r *rand.Rand) string {
+	switch r.Intn(6) {
+	case 0:
+		return "0"
+	case 1:
+		return strconv.Itoa(-1 - r.Intn(1000))
+	case 2:
+		return strconv.Itoa(1 + r.Intn(12))
+	case 3:
+		return strconv.Itoa(1000 + r.Intn(11000))
+	default:
+		return strconv.Itoa(r.Intn(1000000000))
+	}
+}
+
+func genStrVal(r *rand.Rand) string {
+	switch x := r.Intn(100); {
+	case x < 70:
+		return "s." + c20lib.Enc(randText(r, 12, textAlphabet))
+	case x < 76:
+		return "s."
+	case x < 82:
+		return "z"
+	case x < 88:
+		return "n." + randInt(r)
+	case x < 92:
+		return "b." + pick(r, []string{"true", "false"})
+	case x < 96:
+		return "o"
+	default:
+		return "f." + strconv.Itoa(r.Intn(100)) + "." + strconv.Itoa(1+r.Intn(9))
+	}
+}
+
+func genIntVal(r *rand.Rand) string {
+	switch x := r.Intn(100); {
+	case x < 60:
+		return "n." + randInt(r)
+	case x < 72:
+		return "s." + randInt(r)
+	case x < 78:
+		return "z"
+	case x < 85:
+		return "s." + c20lib.Enc(randText(r, 6, "abcxyz -."))
+	case x < 90:
+		return "f." + strconv.Itoa(r.Intn(100)) + "." + strconv.Itoa(1+r.Intn(9))
+	case x < 95:
+		return "b." + pick(r, []string{"true", "false"})
+	default:
+		return "o"
+	}
+}
+
+var reservedMD = map[string]bool{"user-agent": true, "content-type": true, "te": true, "grpc-timeout": true, "grpc-accept-encoding": true,
+	"accept-encoding": true, "connection": true, "host": true, "grpc-encoding": true}
+
+func genMD(r *rand.Rand) string {
+	n := r.Intn(4)
+	seen := map[string]bool{}
+	var out []string
+	for i := 0; i < n; i++ {
+		k := string("abcdefghijklmnopqrstuvwxyz"[r.Intn(26)]) + randText(r, 8, "abcdefghijklmnopqrstuvwxyz0123456789-_.")
+		if r.Intn(4) == 0 {
+			k = strings.ToUpper(k[:1]) + k[1:]
+		}
+		if r.Intn(8) == 0 {
+			k = pick(r, []string{"authorization", "Authorization", "x-request-id", "X-Trace", "auth"})
+		}
+		lk := strings.ToLower(k)
+		if seen[lk] || reservedMD[lk] || strings.HasPrefix(lk, "grpc-") {
+			continue
+		}
+		seen[lk] = true
+		v := strings.TrimSpace(randText(r, 14, "abcdefghijklmnopqrstuvwxyzABCDEFXYZ0123456789   -_.=/:,;+!?()*"))
+		if r.Intn(6) == 0 {
+			v = "Bearer " + randText(r, 10, "abcdef0123456789")
+		}
+		out = append(out, c20lib.Enc(k)+":"+c20lib.Enc(v))
+	}
+	return strings.Join(out, ",")
+}
+
+func genEntry(r *rand.Rand, i int) string {
+	tag := "t" + strconv.Itoa(i) + randText(r, 3, "abcxyz_")
+	if r.Intn(100) < 14 {
+		return tag + "|" + c20lib.Enc(pick(r, unknownCalls)) + "|" + genMD(r) + "|" + pick(r, []string{"", "name:s.x", "a:n.1"})
+	}
+	m := pick(r, methodNames)
+	var pl []string
+	if m == "Auth" && r.Intn(2) == 0 {
+		u := strconv.Itoa(1 + r.Intn(12))
+		p := u
+		if r.Intn(4) == 0 {
+			p = strconv.Itoa(1 + r.Intn(12))
+		}
+		pl = append(pl, "login:s."+u, "pass:s."+p)
+	} else {
+		for _, f := range methods[m] {
+			if r.Intn(10) < 3 {
+				continue
+			}
+			name := f.name
+			if r.Intn(3) == 0 {
+				name = f.json
+			}
+			if f.isInt {
+				pl = append(pl, name+":"+genIntVal(r))
+			} else {
+				pl = append(pl, name+":"+genStrVal(r))
+			}
+		}
+	}
+	if r.Intn(10) == 0 {
+		pl = append(pl, pick(r, []string{"bogus", "Name", "user", "x"})+":"+pick(r, []string{"s.x", "n.1", "z"}))
+	}
+	r.Shuffle(len(pl), func(a, b int) { pl[a], pl[b] = pl[b], pl[a] })
+	return tag + "|" + svc + m + "|" + genMD(r) + "|" + strings.Join(pl, ",")
+}
+
+func genJSON(r *rand.Rand) string {
+	n := pick(r, []int{1, 1, 2, 4})
+	k := 1 + r.Intn(8)
+	es := make([]string, k)
+	for i := range es {
+		es[i] = genEntry(r, i)
+	}
+	return fmt.Sprintf("mode=json n=%d sc=%d tmo=%d e=%s", n, pick(r, []int{0, 0, 1, 2}), pick(r, []int{0, 40, 90}), strings.Join(es, ";"))
+}
+
+// ---------------------------------------------------------------- scenarios
+
+var mdTemplates = []string{"x-user:u-{U}", "x-g:{G}", "x-const:abc", "x-mix:{G}-{U}~end", "X-Up:{U}{U}", "x-plain:Bearer~zzz"}
+
+func genScen(r *rand.Rand, engine bool) string {
+	n := pick(r, []int{1, 2, 2, 3, 4})
+	nu := 2 + r.Intn(4)
+	perm := r.Perm(10)
+	var users []string
+	for i := 0; i < nu; i++ {
+		users = append(users, strconv.Itoa(perm[i]+1))
+	}
+	withAuth := r.Intn(2) == 0
+	if !withAuth && r.Intn(2) == 0 {
+		users = nil
+		for i := 0; i < nu; i++ {
+			users = append(users, c20lib.Enc(randText(r, 6, "abcdefghijk-_ ")+strconv.Itoa(i)))
+		}
+	}
+	var calls []string
+	var okCalls, failCalls []string
+	nh := 1 + r.Intn(2)
+	for i := 0; i < nh; i++ {
+		name := "h" + strconv.Itoa(i)
+		var md []string
+		for _, t := range mdTemplates {
+			if r.Intn(3) == 0 {
+				md = append(md, t)
+			}
+		}
+		if len(md) == 0 && r.Intn(4) != 0 {
+			md = append(md, "x-user:u-{U}")
+		}
+		payload := pick(r, []string{"name:s.{U}", "name:s.{U}", "name:s.n-{U}-{G}"})
+		calls = append(calls, name+"|"+svc+"Hello|"+strings.Join(md, ",")+"|"+payload+"|u")
+		okCalls = append(okCalls, name)
+	}
+	if withAuth {
+		amd := pick(r, []string{"", "x-user:{U}", "x-g:{G},x-user:login-{U}"})
+		calls = append(calls, "auth|"+svc+"Auth|"+amd+"|login:s.{U},pass:s.{U}|u")
+		lmd := pick(r, []string{"authorization:Bearer~{A}", "authorization:Bearer~{A},x-uid:{I}", "x-uid:id-{I}-{G}"})
+		calls = append(calls, "list|"+svc+"List|"+lmd+"|user_id:n.{I},token:s.{A}|-")
+		calls = append(calls, "order|"+svc+"Order|authorization:Bearer~{A}|user_id:n.{I},token:s.{A},item_id:n.{I}0"+strconv.Itoa(10+r.Intn(89))+"|-")
+	}
+	if !engine {
+		if r.Intn(3) == 0 {
+			calls = append(calls, "bad|"+svc+"Nope|a:{G}|name:s.x|-")
+			failCalls = append(failCalls, "bad")
+		}
+		if r.Intn(3) == 0 {
+			calls = append(calls, "ill|"+svc+"Hello|a:b-{G}|name:n.5|-")
+			failCalls = append(failCalls, "ill")
+		}
+	}
+	ns := 1 + r.Intn(3)
+	var scns []string
+	for s := 0; s < ns; s++ {
+		var reqs []string
+		k := 1 + r.Intn(3)
+		for i := 0; i < k; i++ {
+			req := pick(r, okCalls)
+			if r.Intn(4) == 0 {
+				req += "*2"
+			}
+			reqs = append(reqs, req)
+		}
+		if withAuth && r.Intn(2) == 0 {
+			reqs = append(reqs, "auth", "list")
+			if r.Intn(2) == 0 {
+				reqs = append(reqs, pick(r, []string{"order", "list*2", "order*2"}))
+			}
+			if r.Intn(3) == 0 {
+				reqs = append(reqs, pick(r, okCalls))
+			}
+		}
+		if len(failCalls) > 0 && r.Intn(2) == 0 {
+			pos := r.Intn(len(reqs) + 1)
+			reqs = append(reqs[:pos], append([]string{pick(r, failCalls)}, reqs[pos:]...)...)
+		}
+		scns = append(scns, fmt.Sprintf("s%d:%d:%s", s, 1+r.Intn(3), strings.Join(reqs, "+")))
+	}
+	base := fmt.Sprintf("mode=scen run=%%s n=%d tmo=%d users=%s g=%s calls=%s scns=%s", n, pick(r, []int{0, 0, 40, 90}),
+		strings.Join(users, ","), c20lib.Enc(randText(r, 5, "ghijkl-09")), strings.Join(calls, ";"), strings.Join(scns, ";"))
+	if engine {
+		return fmt.Sprintf(base, "engine") + fmt.Sprintf(" shots=%d", 8+r.Intn(30))
+	}
+	l := 3 + r.Intn(9)
+	sched := make([]byte, l)
+	for i := range sched {
+		sched[i] = byte('0' + r.Intn(n))
+	}
+	return fmt.Sprintf(base, "sched") + " sched=" + string(sched)
+}
+
+func gen(r *rand.Rand, tier string) []string {
+	nj, ns, ne := 45, 45, 6
+	if tier == "thorough" {
+		nj, ns, ne = 700, 700, 60
+	}
+	out := []string{"mode=table"}
+	for i := 0; i < nj; i++ {
+		out = append(out, genJSON(r))
+	}
+	for i := 0; i < ns; i++ {
+		out = append(out, genScen(r, false))
+	}
+	for i := 0; i < ne; i++ {
+		out = append(out, genScen(r, true))
+	}
+	return out
 }
